@@ -27,7 +27,7 @@ ASSUMPTIONS = [
     "lone surrogates are not Unicode text and are not generated",
 ]
 FLOORS = {"quick": {"calls": 100000, "calls-with-special-values": 50000},
-          "thorough": {"calls": 1800000, "calls-with-special-values": 900000}}
+          "thorough": {"calls": 9000000, "calls-with-special-values": 4000000}}
 SHARD_TIMEOUT = {"quick": 600, "thorough": 3000}
 
 FRAGS = ["a", "script", "x y", '"', "\\", '\\"', "\r", "\n", "\r\n", "\x00", "{", "}", "{5}",
@@ -38,7 +38,7 @@ SIZES = [0, 1, 1000, 2 ** 31, 2 ** 32, 2 ** 63, 2 ** 63 - 1, 42]
 
 
 def plan(tier, seed):
-    n = 120000 if tier == "quick" else 2000000
+    n = 120000 if tier == "quick" else 10000000
     k = 16 if tier == "quick" else 64
     return [{"w": "calls", "n": e - s, "rs": seed * 1000003 + i}
             for i, (s, e) in enumerate(split(n, k))]
